@@ -13,6 +13,7 @@ from mypy.nodes import (
 )
 
 from refurb.error import Error
+from refurb.settings import Settings
 
 
 @dataclass
@@ -80,7 +81,10 @@ def handle_join_arg(root: Node, arg: Expression) -> list[Error]:
     return []
 
 
-def check(node: CallExpr, errors: list[Error]) -> None:
+def check(node: CallExpr, errors: list[Error], settings: Settings) -> None:
+    if settings.get_python_version() < (3, 8):
+        return  # pragma: no cover
+
     match node:
         case CallExpr(
             callee=MemberExpr(
